@@ -92,8 +92,10 @@ def sampler_orders(ck, recs, data, max_points=3):
 
     class StubSMC:
         def __init__(self, *a, **k):
-            dps = a[0] if (a and isinstance(a[0], (list, tuple))) else a[1]
-            raise _Captured(tuple(dp.idx for dp in dps))
+            for x in list(a) + list(k.values()):
+                if isinstance(x, (list, tuple)) and x and all(hasattr(dp, "idx") for dp in x):
+                    raise _Captured(tuple(dp.idx for dp in x))
+            raise _Captured(None)
 
     saved = (unc.SMCSampler, pg.ConditionalSMCSampler)
     unc.SMCSampler = StubSMC
@@ -116,6 +118,8 @@ def sampler_orders(ck, recs, data, max_points=3):
                         sampler.sample_tree(t)
                     except _Captured as c:
                         return c.order
+                    except Exception:  # noqa - a changed constructor protocol: reported as a note below
+                        return None
                     return None
 
                 law = {}
